@@ -10,8 +10,8 @@ props=(); tier=quick
 while [ $# -gt 0 ]; do if [ "$1" = "--" ]; then tier=$2; break; fi; props+=("$1"); shift; done
 [ ${#props[@]} -eq 0 ] && props=("${id%%_*}")
 W=/tmp/seedrun_$id
-rm -rf "$W"; git -C /repo worktree prune; git -C /repo worktree add -q "$W/repo" HEAD || exit 2
-( cd "$W/repo" && git apply "$V/seeded/$id/patch.diff" ) || { echo "patch does not apply"; git -C /repo worktree remove --force "$W/repo"; exit 2; }
+rm -rf "$W"; flock /tmp/verif_worktree.lock git -C /repo worktree prune; flock /tmp/verif_worktree.lock git -C /repo worktree add -q "$W/repo" HEAD || exit 2
+( cd "$W/repo" && git apply "$V/seeded/$id/patch.diff" ) || { echo "patch does not apply"; flock /tmp/verif_worktree.lock git -C /repo worktree remove --force "$W/repo"; exit 2; }
 res="{}"
 for p in "${props[@]}"; do
   start=$(date +%s)
@@ -31,4 +31,4 @@ import json,sys,os
 p=sys.argv[1]; new=json.loads(sys.argv[2])
 old=json.load(open(p)) if os.path.exists(p) else {}
 old.update(new); json.dump(old,open(p,'w'),indent=1)" "seeded/$id/verdict.json" "$res"
-git -C /repo worktree remove --force "$W/repo"; rm -rf "$W"
+flock /tmp/verif_worktree.lock git -C /repo worktree remove --force "$W/repo"; rm -rf "$W"
